@@ -106,6 +106,7 @@ def mkWorld (S : Script) (items : List DV) (pairs : List (DV × DV)) : World DV 
       else pure (.seq (t - 900) xs)
     | _ => pure v
   insertKey := fun k => if k.unhashable then raise (builtinExc K.typeError) else pure ()
+  keyStr := fun k => do let _ ← runAct k (S.find 5 3 k.tokOf); pure ()
   validate := fun k v => runAct v (S.find 9 k v.tokOf)
   pre := fun v => runAct v (S.find 7 0 v.tokOf)
   post := fun v => runAct v (S.find 7 1 v.tokOf)
@@ -116,9 +117,11 @@ def mkData (S : Script) (W : World DV) (strKeys : Bool) : DataWorld DV where
   isMapping := fun v => match v with | .map _ => true | _ => false
   toDict := fun v => runAct v (S.find 5 0 v.tokOf)
   castKeys := fun v => runAct v (S.find 5 1 v.tokOf)
+  readMapping := fun v => runAct v (S.find 5 2 v.tokOf)
+  strKeyed := fun _ => strKeys
   unpack := fun v => match v with
-    | .map kvs => if strKeys then pure (kvs.map fun (k, x) => (k.tokOf, x)) else raise (builtinExc K.typeError)
-    | _ => raise (builtinExc K.typeError)
+    | .map kvs => kvs.map fun (k, x) => (k.tokOf, x)
+    | _ => []
   discLookup := fun f v =>
     match S.find 6 f v.tokOf with
     | some (.ok (.tok t)) => pure (some t)
@@ -166,7 +169,8 @@ def mkLegacy (j : Json) : Legacy :=
   { seqIndex := bool! (fld j "seqIndex"), tupleMissing := bool! (fld j "tupleMissing"),
     rewrap := bool! (fld j "rewrap"), mapInsert := bool! (fld j "mapInsert"),
     containsNarrow := bool! (fld j "containsNarrow"), allOfRaw := bool! (fld j "allOfRaw"),
-    aliasCompare := bool! (fld j "aliasCompare"), discLookup := bool! (fld j "discLookup") }
+    aliasCompare := bool! (fld j "aliasCompare"), discLookup := bool! (fld j "discLookup"),
+    nonStrKeys := bool! (fld j "nonStrKeys"), mapKeyStr := bool! (fld j "mapKeyStr") }
 
 def infoJson (i : Info) : Json :=
   Json.mkObj [("perr", Json.bool i.perr), ("cls", Json.num i.cls), ("site", Json.num i.site),
@@ -269,6 +273,7 @@ def handle (j : Json) : Json :=
       let D1 := mkData S W1 true
       let Pout : ParserDecl DV := { fields := [{ id := 90, aliases := [90], ty := some 800, required := true }] }
       outJson kvJson (classCall D1 L oo Pout (hook 0) [(90, DV.ofJson (fld j "input"))] (isSchema (fld outer "cls_kind")) {})
+    | "init_dict" => outJson kvJson (classCallDict D L o P (hook 0) (DV.ofJson (fld j "input")) schema {})
     | _ => outJson kvJson (classCall D L o P (hook 0) (kwOf (fld j "kwargs")) schema {})
   | "func" =>
     let D := mkData S W true
